@@ -92,6 +92,8 @@ type exec struct {
 	longUses           map[int]int
 	// C16: expressions of pernode steps, compiled once per run
 	perNode map[string]*xpath.Expr
+	// C16 goroutine runs: expressions shared by the tasks' pnode operations
+	pnode []*xpath.Expr
 }
 
 type soloKey struct {
@@ -194,6 +196,24 @@ func (x *exec) runFinalizers() {
 	mainOpSeq.Add(1)
 	x.res.Stats.Steps += int64(e.Steps)
 	x.res.Stats.Faults["finalizer-run"] += n
+}
+
+// nsRebind: the client re-binds the prefixes in the very map object it passed
+// to CompileWithNS earlier (its right: the bindings are read when an expression
+// is compiled). Expressions compiled before must not notice. The harness itself
+// goes on compiling with a fresh map holding the original bindings.
+func (x *exec) nsRebind() {
+	if !x.s.Cfg.NS {
+		return
+	}
+	old := nsMap
+	nsMap = map[string]string{}
+	for k, v := range old {
+		nsMap[k] = v
+	}
+	old["x"], old["y"] = old["y"], old["x"]
+	old["z"] = "urn:z"
+	x.res.Stats.Faults["ns-rebind"]++
 }
 
 // forceGC is the "gc" fault: a collection here and now, and every finalizer it
@@ -554,6 +574,8 @@ func (x *exec) histC04() {
 			x.cache = newCacheModel(x, st.N)
 			x.cache.install()
 			x.res.Stats.Faults["cache-swap"]++
+		case "nsrebind":
+			x.nsRebind()
 		case "gc":
 			// iterators the caller abandoned are unreachable from now on
 			for _, h := range hs {
